@@ -82,7 +82,7 @@ fn dump_unit<R: Reader<Offset = usize>>(main: R, abbrev: R) -> gimli::Result<Vec
     let da = DebugAbbrev::from(abbrev);
     let mut units = di.units();
     while let Some(h) = units.next()? {
-        d.push(json!(["unit", h.version(), h.address_size(), h.unit_length(), h.debug_abbrev_offset().0,
+        d.push(json!(["unit", h.version(), h.address_size(), h.format().word_size(), h.unit_length(), h.debug_abbrev_offset().0,
                       format!("{:?}", h.type_())]));
         let abbrevs = h.abbreviations(&da)?;
         let mut cur = h.entries(&abbrevs);
@@ -161,7 +161,7 @@ fn dump_frame<R: Reader<Offset = usize>>(main: R, asz: u8) -> gimli::Result<Vec<
 
 fn run_dump<R: Reader<Offset = usize>>(kind: &str, ver: u16, asz: u8, main: R, aux: &dyn Fn(&str) -> R) -> Value {
     let r = match kind {
-        "unit" => dump_unit(main, aux("abbrev")),
+        "unit" | "unit64" => dump_unit(main, aux("abbrev")),
         "line4" | "line5" => dump_line(main, asz),
         "ranges" => dump_ranges(main, aux("none"), ver, asz),
         "rnglists" => dump_ranges(aux("none"), main, ver, asz),
